@@ -10,7 +10,8 @@
    coin received, fee forwarded to the pair's fee collector, fills. *)
 From Comdex Require Import Lib.Base Lib.DecArith Model.Liquidity Model.LiquidityWitness
   Proofs.LiquidityProofs Proofs.LiquiditySweep Proofs.LiquidityProofs2 Proofs.LiquidityEffects
-  Proofs.LiquidityEscrow Proofs.LiquidityReach Proofs.LiquidityMMCancel Proofs.LiquidityOrderThms Proofs.LiquidityMM.
+  Proofs.LiquidityEscrow Proofs.LiquidityReach Proofs.LiquidityMMCancel Proofs.LiquidityOrderThms Proofs.LiquidityMM
+  Proofs.LiquidityLife.
 
 (* what was taken from the orderer at placement = offer coin + swap-fee reserve, where the reserve
    is floor(offer * rate) (0 for market-making orders) - for every order stored in any reachable state *)
@@ -219,3 +220,91 @@ Proof.
   split; [vm_compute; reflexivity|]. split; [vm_compute; reflexivity|]. split; [vm_compute; reflexivity|].
   split; vm_compute; reflexivity.
 Qed.
+
+(* an order over its whole life, across any number of batches: in every reachable state (any matching results),
+   for every stored order, each recorded fill's payment was covered by what was left of the offer coin BEFORE
+   that fill ([life_ok]: fills newest first), the total paid never exceeds the offer coin, and the remaining
+   offer coin is the offer coin minus the total paid and is never negative *)
+Theorem c07_order_life : forall setup ops e, hist_ok setup ops ->
+  let s := reach setup ops in
+  In e (orders s) ->
+  life_ok (o_offer (fst e)) (g_fills (snd e)) /\
+  0 <= fills_paid (snd e) <= o_offer (fst e) /\
+  o_rem (fst e) = o_offer (fst e) - fills_paid (snd e) /\ 0 <= o_rem (fst e) <= o_offer (fst e).
+Proof. intros setup ops e [Hs Ho]. exact (run_life setup ops Hs Ho e). Qed.
+Print Assumptions c07_order_life.
+
+(* non-vacuity: a buy and a sell of 1000 at 1.0 (offer 1000 each) filled 400 in one batch and 250 in a later one, still live *)
+Definition w_life_ops : list op :=
+  [OCreatePair 1 90 1 2; OLimit (w_buy 1 1) 10; OLimit w_sell 10;
+   OEnd 2 11 [mkAppEnv 1 [mkBatch 1 true 1000000000000000000 [(1, 400, 400, 400); (2, 400, 400, 400)] [] 0] [] []]; OBegin;
+   OEnd 3 21 [mkAppEnv 1 [mkBatch 1 true 1000000000000000000 [(1, 250, 250, 250); (2, 250, 250, 250)] [] 0] [] []]].
+Example c07_order_life_example :
+  hist_ok (w_setup 1) w_life_ops /\
+  map (fun e => (o_offer (fst e), o_rem (fst e), o_status (fst e), g_fills (snd e))) (orders (reach (w_setup 1) w_life_ops))
+  = [(1000, 350, 3, [(250, 250, 250); (400, 400, 400)]); (1000, 350, 3, [(250, 250, 250); (400, 400, 400)])].
+Proof. split; [split; repeat constructor|vm_compute; reflexivity]. Qed.
+
+(* the payment a batch may book on a stored order is bounded by what NewUserOrder hands to the engine for it:
+   ApplyMatchResult's fill succeeds only with 0 <= paid <= remaining offer coin = the offer coin bound of the
+   amm order built from the record (any larger payment is the Coin.Sub panic, which rolls the whole batch back) *)
+Theorem c07_fill_within_remaining : forall s app pair id matched paid recv s' o g,
+  apply_fill s app pair (id, matched, paid, recv) = Ok s' -> find_order (app, pair, id) (orders s) = Some (o, g) ->
+  0 <= paid <= ai_offer (user_order_amm o) /\ ai_offer (user_order_amm o) = o_rem o /\ 0 <= recv.
+Proof.
+  intros s app pair id matched paid recv s' o g H Hf.
+  destruct (fill_pays _ _ _ _ _ _ _ _ H) as (o' & g' & s3 & Hf' & Hp & Hr & _).
+  rewrite Hf in Hf'. injection Hf' as <- <-. cbn [user_order_amm ai_offer]. repeat split; lia.
+Qed.
+Print Assumptions c07_fill_within_remaining.
+
+(* the ghost trace of the end block (per app: batch executed / rolled back / not due) is an observation only: the
+   state it computes is [end_block]'s, and every registered app gets exactly one flag.  The runner compares the
+   flags with whether the implementation's batch ids advanced: a batch the implementation rolls back (an error
+   or a swallowed panic inside ExecuteRequests) while the model executes it is a mismatch *)
+Theorem c07_batch_trace : forall h now envs s,
+  fst (end_block_trace h now envs s) = end_block h now envs s /\
+  map fst (snd (end_block_trace h now envs s)) = map fst (apps s).
+Proof. intros. split; [apply end_block_trace_fst|apply end_block_trace_apps]. Qed.
+Print Assumptions c07_batch_trace.
+
+Example c07_batch_trace_example :
+  snd (end_block_trace 3 21 [mkAppEnv 1 [mkBatch 1 true 1000000000000000000 [(1, 250, 250, 250); (2, 250, 250, 250)] [] 0] [] []]
+         (reach (w_setup 1) [OCreatePair 1 90 1 2; OLimit (w_buy 1 1) 10; OLimit w_sell 10; OEnd 2 11 []; OBegin])) = [(1, 1)] /\
+  (* a fill that pays more than the order has left is the Coin.Sub panic: the app's batch is rolled back *)
+  snd (end_block_trace 3 21 [mkAppEnv 1 [mkBatch 1 true 1000000000000000000 [(1, 1000, 1001, 1000); (2, 1000, 1000, 1000)] [] 0] [] []]
+         (reach (w_setup 1) [OCreatePair 1 90 1 2; OLimit (w_buy 1 1) 10; OLimit w_sell 10; OEnd 2 11 []; OBegin])) = [(1, 0)].
+Proof. split; vm_compute; reflexivity. Qed.
+
+(* refuted on the unchanged tree (known finding C05-F2, the known finding C05-F1 reached through the keeper): a batch
+   whose engine result does not conserve the base coin - here a buy of 15000 at 0.01 filled in full while the pool
+   legs bring only 12000 base coins into the pair escrow ([batch_base_net] = -3000, class [kf_C05_2_stall]) - cannot
+   be applied: the escrow cannot pay the buyer, ExecuteRequests panics on the error and ApplyFuncIfNoError rolls the
+   whole batch of the app back.  The order stays NotExecuted and the pair's batch id stays 1, at this block and again
+   at a later block that lies after the order's expiry (expiry is part of the rolled-back batch): the order is never
+   settled.  With an engine result that conserves coins (here: no match) the same block advances the batch id.
+   The harness reaches such books on the real keeper by a directed search (TestC05KeeperHunt) and the real EndBlocker
+   shows exactly this; the runner then feeds the engine's fills to the model, which rolls back as well. *)
+Definition st_buy : order_msg := mkOMsg 1 50 1 true true 2 151 1 10000000000000000 15000 100.
+Definition st_ops : list op := [OCreatePair 1 90 1 2; OCreatePool 1 90 1 1000000 100000000 true 1000000; OLimit st_buy 10].
+Definition st_batch : batch_env := mkBatch 1 true 10000000000000000 [(1, 15000, 150, 15000)] [(1, 150, -12000)] 0.
+Definition st_env : list app_env := [mkAppEnv 1 [st_batch] [] []].
+Definition st_state : state := reach (w_setup 1) st_ops.
+Theorem c07_batch_stall_refuted :
+  hist_ok (w_setup 1) st_ops /\
+  kf_C05_2_stall [batch_base_net (fun _ => true) st_batch] = true /\
+  map (fun e => (o_status (fst e), o_expire (fst e))) (orders st_state) = [(1, 110)] /\
+  snd (end_block_trace 2 11 st_env st_state) = [(1, 0)] /\
+  (let s1 := end_block 2 11 st_env st_state in
+   map (fun e => o_status (fst e)) (orders s1) = [1] /\ map p_batch (pairs s1) = [1] /\
+   let s2 := end_block 3 200 st_env (begin_block s1) in
+   snd (end_block_trace 3 200 st_env (begin_block s1)) = [(1, 0)] /\
+   map (fun e => o_status (fst e)) (orders s2) = [1] /\ map p_batch (pairs s2) = [1]) /\
+  map p_batch (pairs (end_block 2 11 [] st_state)) = [2].
+Proof.
+  split; [split; repeat constructor|]. split; [vm_compute; reflexivity|]. split; [vm_compute; reflexivity|].
+  split; [vm_compute; reflexivity|]. split; [|vm_compute; reflexivity].
+  cbv zeta. split; [vm_compute; reflexivity|]. split; [vm_compute; reflexivity|].
+  split; [vm_compute; reflexivity|]. split; vm_compute; reflexivity.
+Qed.
+Print Assumptions c07_batch_stall_refuted.
